@@ -28,7 +28,12 @@ RULE = ("Hypothesis draws a sample (1..4 atoms: natural elements, isotopes, ions
         "around equality), otherwise |A(t)-target| <= 1e-3 target; any other exception is a violation; RuntimeError "
         "for one list and a time for another is a violation (dependence on the rest times); RuntimeError for all "
         "lists is inconclusive. non-trivial = target in (0.3 A0, A0), or a list without 0, or >= 3 products whose "
-        "half-lives span >= 6 decades; distinct by (formula, environment, lists, target).")
+        "half-lives span >= 6 decades; distinct by (formula, environment, lists, target). Every decay_time question is "
+        "asked twice (same answer). reuse: ONE Sample receives 2..3 consecutive calculate_activation calls (beam, "
+        "exposure, rest times, abundance function change); after each, decay_time for two targets relative to A(0), "
+        "for the absolute targets of the previous step, and after a first question for 10 A(0), must equal the answer "
+        "of a never-questioned fresh Sample given the same call and satisfy the oracle; the rest-time list and the "
+        "shared ActivationEnvironment must be unchanged.")
 ASSUMPTIONS = [
     "the activities computed by calculate_activation are taken as given (C14 decides them); only the relation "
     "between them and the returned time is checked",
@@ -115,6 +120,39 @@ def cause(products, rests, zero):
     return "first-rest-positive"
 
 
+def judge(case, formula, envd, k, products, A0, target, relation, zero, L, why, r):
+    """One outcome of decay_time against the truth A(t) = sum_i A_i(0) 2^(-t/T_i)."""
+    tgt = D(target)
+
+    def fail(kind, w, msg):
+        raise Violation("c15:%s:%s" % (kind, w), "%s, mass %r, target %r = %r*A(0): %s" % (formula, envd["mass"], target, k, msg), case)
+
+    if r[0] == "exc":
+        w = why
+        if zero and r[1] in ("ZeroDivisionError", "ValueError"):
+            w = "zero-activity-product"
+        fail("exception:%s" % r[1], w, "rest times %r: decay_time raised %s in %s: %s" % (L, r[1], r[2], r[3]))
+    if r[0] != "time":
+        return
+    t = r[1]
+    if not (t >= 0):
+        fail("negative-time", why, "rest times %r: returned %r" % (L, t))
+    if relation == "below" and t != 0:
+        fail("positive-time-below-target", why, "rest times %r: A(0) = %.17g <= target but returned %r" % (L, float(A0), t))
+    if relation == "above" and t == 0:
+        fail("zero-above-target", why, "rest times %r: A(0) = %.17g > target but returned 0" % (L, float(A0)))
+    if t > 0:
+        At = ra.total_activity(products, t)
+        if abs(At - tgt) > ACC * tgt:
+            fail("inaccurate", why, "rest times %r: returned %r h where the activity is %.17g (%.3g %% off)"
+                 % (L, t, float(At), float(100 * abs(At - tgt) / tgt)))
+
+
+def relation_of(A0, target):
+    tgt = D(target)
+    return "band" if abs(A0 - tgt) <= BAND * tgt else ("above" if A0 > tgt else "below")
+
+
 def check_case(ctx, v):
     E = env()
     atoms, envd, k = v["atoms"], v["env"], v["k"]
@@ -168,44 +206,144 @@ def check_case(ctx, v):
             return
         why = cause(products, L, zero)
         r = outcome(s, target)
+        again = outcome(s, target)
+        if again != r:
+            raise Violation("c15:reuse:decay-time-differs",
+                            "%s, rest times %r: decay_time(%r) asked twice on the same sample gave %r then %r"
+                            % (formula, L, target, r[1:], again[1:]), case)
         results.append((L, why, r))
         cls.append("list:" + why)
         cls.append("outcome:" + r[0])
     ctx.case((formula, c14.envkey(dict(envd, rests=[])), tuple(map(tuple, lists)), target), nontrivial=nontrivial,
              sample={"formula": formula, "env": envd, "lists": lists[1:], "target": target, "A0": float(A0)}, cls=cls)
 
-    def fail(kind, why, msg):
-        raise Violation("c15:%s:%s" % (kind, why), "%s, mass %r, target %r = %r*A(0): %s" % (formula, envd["mass"], target, k, msg), case)
-
     for L, why, r in results:
-        if r[0] == "exc":
-            w = why
-            if zero and r[1] in ("ZeroDivisionError", "ValueError"):
-                w = "zero-activity-product"
-            fail("exception:%s" % r[1], w, "rest times %r: decay_time raised %s in %s: %s" % (L, r[1], r[2], r[3]))
-        if r[0] != "time":
-            continue
-        t = r[1]
-        if not (t >= 0):
-            fail("negative-time", why, "rest times %r: returned %r" % (L, t))
-        if relation == "below" and t != 0:
-            fail("positive-time-below-target", why, "rest times %r: A(0) = %.17g <= target but returned %r" % (L, float(A0), t))
-        if relation == "above" and t == 0:
-            fail("zero-above-target", why, "rest times %r: A(0) = %.17g > target but returned 0" % (L, float(A0)))
-        if t > 0:
-            At = ra.total_activity(products, t)
-            if abs(At - tgt) > ACC * tgt:
-                fail("inaccurate", why, "rest times %r: returned %r h where the activity is %.17g (%.3g %% off)"
-                     % (L, t, float(At), float(100 * abs(At - tgt) / tgt)))
+        judge(case, formula, envd, k, products, A0, target, relation, zero, L, why, r)
     kinds = [r[0] for _, _, r in results]
     if "runtime" in kinds and "time" in kinds:
         L, why, r = [x for x in results if x[2][0] == "runtime"][0]
         other = [x for x in results if x[2][0] == "time"][0]
-        fail("rest-time-dependence", why, "rest times %r: RuntimeError (%s) but rest times %r give %r"
-             % (L, r[1], other[0], other[2][1]))
+        raise Violation("c15:rest-time-dependence:%s" % why,
+                        "%s, mass %r, target %r = %r*A(0): rest times %r: RuntimeError (%s) but rest times %r give %r"
+                        % (formula, envd["mass"], target, k, L, r[1], other[0], other[2][1]), case)
     if all(x == "runtime" for x in kinds):
         ctx.inconclusive += 1
         ctx.count("inconclusive:runtime-error-for-every-list")
+
+
+# ----------------------------------------------------------------------
+# one Sample reused for consecutive calculations; decay_time asked repeatedly
+def reuse_cases(E):
+    return st.fixed_dictionaries(dict(
+        atoms=c14.sample_atoms(E), mass=c14.logu(1e-3, 1e3), steps=c14.reuse_steps(bright=True),
+        first=st.sampled_from(["NIST", "IAEA"]), ks=st.lists(target_factor(), min_size=2, max_size=2)))
+
+
+def same_outcome(a, b):
+    if a[0] != b[0]:
+        return False
+    if a[0] == "time":
+        return a[1] == b[1] or abs(a[1] - b[1]) <= 1e-9 * max(abs(a[1]), abs(b[1]))
+    if a[0] == "exc":
+        return a[1] == b[1]
+    return True
+
+
+def check_reuse(ctx, v):
+    """2-3 consecutive calculate_activation calls on ONE Sample (beam, exposure,
+    rest times and abundance function change; the two abundance functions
+    alternate).  After each call decay_time of the reused sample must equal
+    decay_time of a fresh Sample given the same call, for two targets relative to
+    the activity at removal and for the absolute targets asked in the previous
+    step (a memo must not outlive the calculation); asking twice gives the same
+    answer; every answer is judged against the truth; the rest-time list and the
+    ActivationEnvironment (shared by the samples) are unchanged."""
+    from ..guards import unchanged
+    E = env()
+    atoms, mass, steps, ks = v["atoms"], v["mass"], v["steps"], v["ks"]
+    formula = "".join(c14.atom_string(sp, cnt) for sp, cnt in atoms)
+    case = dict(v, kind="reuse", formula=formula)
+    env_objs = {}
+    try:
+        reused = E.act.Sample(formula, mass)
+    except Exception:  # noqa
+        ctx.count("skipped:formula")
+        return
+    ctx.case(("reuse", formula, mass, repr(steps), v["first"], tuple(ks)), nontrivial=True,
+             sample={"formula": formula, "steps": steps, "ks": ks}, cls=["reuse:steps:%d" % len(steps)])
+    previous = []
+    for i in range(len(steps)):
+        envd = c14.step_env(steps, i, mass)
+        which = v["first"] if i % 2 == 0 else c14.other(v["first"])
+        abundance = E.act.NIST2001_isotopic_abundance if which == "NIST" else E.act.IAEA1987_isotopic_abundance
+        ekey = (envd["fluence"], envd["Cd"], envd["fast"])
+        environment = env_objs.setdefault(ekey, c14.make_env(E, envd))
+        snap = dict(vars(environment))
+        L = list(envd["rests"])
+        where = "step %d of %d (%s, exposure %r, rest times %r)" % (i + 1, len(steps), which, envd["exposure"], envd["rests"])
+        try:
+            fresh = E.act.Sample(formula, mass)
+            fresh.calculate_activation(environment, exposure=envd["exposure"], rest_times=list(L), abundance=abundance)
+            base = E.act.Sample(formula, mass)
+            base.calculate_activation(environment, exposure=envd["exposure"], rest_times=[0.0], abundance=abundance)
+        except Exception:  # noqa  (C14's business)
+            ctx.count("skipped:activation-raises")
+            return
+        try:
+            with unchanged("c15", case, rest_times=L):
+                reused.calculate_activation(environment, exposure=envd["exposure"], rest_times=L, abundance=abundance)
+        except Violation:
+            raise
+        except Exception as e:  # noqa
+            raise Violation("c15:reuse:sample-state", "%s %s: calculate_activation on the reused sample raised %s: %s"
+                            % (formula, where, type(e).__name__, str(e)[:120]), case)
+        products = [(vals[0], ai.Thalf_hrs) for ai, vals in base.activity.items()]
+        zero = [a for a, T in products if a <= 0]
+        A0 = ra.total_activity(products, 0.0) if products else D(0)
+        targets = []
+        if products and A0 > 0 and math.isfinite(float(A0)):
+            for k in ks:
+                t = float(A0 * D(k))
+                if t > 0 and math.isfinite(t):
+                    targets.append((k, t))
+        else:
+            ctx.count("reuse:step-without-activity")
+            targets.append((None, 1.0))
+        asked = targets + [(None, t) for _, t in previous]
+        if products and A0 > 0 and math.isfinite(float(A0) * 10):
+            # a query must not change the sample: ask for a high level first
+            outcome(reused, float(A0) * 10)
+        for n, (k, target) in enumerate(asked):
+            if n:
+                # every comparison value comes from a sample that was never asked before
+                fresh = E.act.Sample(formula, mass)
+                fresh.calculate_activation(environment, exposure=envd["exposure"], rest_times=list(L), abundance=abundance)
+            o_f = outcome(fresh, target)
+            o_r = outcome(reused, target)
+            o_r2 = outcome(reused, target)
+            ctx.count("reuse:outcome:" + o_r[0])
+            if not same_outcome(o_r, o_r2) or (o_r[0] == "time" and o_r[1] != o_r2[1]):
+                raise Violation("c15:reuse:decay-time-differs",
+                                "%s %s: decay_time(%r) asked twice on the same sample gave %r then %r"
+                                % (formula, where, target, o_r[1:], o_r2[1:]), case)
+            if not same_outcome(o_r, o_f):
+                raise Violation("c15:reuse:sample-state",
+                                "%s %s: decay_time(%r) on the reused sample gives %r, on a fresh sample %r"
+                                % (formula, where, target, o_r[1:], o_f[1:]), case)
+            if products and A0 > 0:
+                why = cause(products, L, zero)
+                judge(case, formula, envd, k, products, A0, target, relation_of(A0, target), zero, L, why, o_r)
+            elif o_r != ("time", 0):
+                raise Violation("c15:no-activity", "%s %s: no activity but decay_time(%r) gave %r" % (formula, where, target, o_r), case)
+        if dict(vars(environment)) != snap:
+            raise Violation("c15:reuse:environment-modified", "%s %s: the ActivationEnvironment changed from %r to %r"
+                            % (formula, where, snap, dict(vars(environment))), case)
+        previous = targets
+
+
+def task_reuse(ctx, n):
+    E = env()
+    ctx.search("reuse", reuse_cases(E), check_reuse, n)
 
 
 def task_search(ctx, n):
@@ -233,12 +371,17 @@ def task_fixed(ctx):
 def tasks(tier):
     if tier == "quick":
         out = [("decay-%d" % i, task_search, dict(n=350)) for i in range(5)]
+        out.append(("reuse", task_reuse, dict(n=200)))
         out.append(("fixed", task_fixed, {}))
         return out
-    out = [("decay-%02d" % i, task_search, dict(n=10000)) for i in range(15)]
+    out = [("decay-%02d" % i, task_search, dict(n=10000)) for i in range(13)]
+    out += [("reuse-%d" % i, task_reuse, dict(n=4000)) for i in range(2)]
     out.append(("fixed", task_fixed, {}))
     return out
 
 
 def replay(ctx, case):
-    check_case(ctx, case)
+    if case.get("kind") == "reuse":
+        check_reuse(ctx, case)
+    else:
+        check_case(ctx, case)
